@@ -4,15 +4,16 @@
    where Go converts (uint16(len(..))); offsets are Go ints (never negative here, see
    [decode_name_z] for the negative case). *)
 From Coq Require Import List NArith ZArith Bool.
-From Mant Require Import Prim.R Prim.Bytes.
+From Mant Require Import Prim.R Prim.Bytes Gen.ConstsC09.
 Import ListNotations.
 Open Scope N_scope.
 
 Definition dot : N := 46.
-Definition MaxLabelLength : N := 63.
-Definition MaxDomainLength : N := 255.
-Definition HeaderSize : N := 12.
-Definition labelPointer : N := 192. (* 0xC0 *)
+(* constants regenerated from llmnr.go by go2coq on every run (Gen/ConstsC09.v) *)
+Definition MaxLabelLength : N := c09_max_label_length.   (* 63 *)
+Definition MaxDomainLength : N := c09_max_domain_length. (* 255 *)
+Definition HeaderSize : N := c09_header_size.            (* 12 *)
+Definition labelPointer : N := c09_label_pointer.        (* 0xC0 *)
 
 (* strings.Split(s, "."): always at least one element. *)
 Fixpoint split_dot (s : list N) : list (list N) :=
